@@ -1,11 +1,46 @@
 import HickoryVerif.Drv.Proto
+import HickoryVerif.Model.ZoneParse
 
 namespace HickoryVerif.Drv.C20
-open HickoryVerif HickoryVerif.Drv
+open HickoryVerif HickoryVerif.Drv HickoryVerif.ZoneParse
 
 abbrev State := Unit
 def init : State := ()
 
-def step (s : State) (_toks : List String) : State × String := (s, "bad-op")
+def showRData : RData → String
+  | .a o => "A," ++ toHex o
+  | .aaaa g => "AAAA," ++ toHex (g.foldr (fun x acc => x / 256 :: x % 256 :: acc) [])
+  | .name _ n => "N," ++ showName n
+  | .mx p n => s!"MX,{p},{showName n}"
+  | .soa m r a b c d e => s!"SOA,{showName m},{showName r},{a},{b},{c},{d},{e}"
+  | .srv p w q n => s!"SRV,{p},{w},{q},{showName n}"
+  | .txt ss => ",".intercalate ("TXT" :: ss.map toHex)
+  | .hinfo c o => s!"HINFO,{toHex c},{toHex o}"
+  | .caa c r t v => s!"CAA,{if c then 1 else 0},{r},{toHex t},{toHex v}"
+
+def showRec (r : Rec) : String := s!"{showName r.name}/{r.cls}/{r.ttl}/{showRData r.data}"
+
+def showRSet (rs : RSet) : String :=
+  s!"{showName rs.name}/{rs.rtype.code}/{rs.cls}/{rs.ttl}=" ++ ";".intercalate (rs.records.map showRec)
+
+def showResult : ZR (Name × List (Key × RSet)) → String
+  | .ok (o, m) =>
+    let sets := (m.map fun (_, rs) => showRSet rs).mergeSort (fun a b => !(b < a))
+    " ".intercalate ("ok" :: showName o :: sets)
+  | .err => "err"
+  | .unmodelled => "unmodelled"
+  | .panic s => "panic " ++ s
+
+def handle (toks : List String) : Option String :=
+  match toks with
+  | "zone" :: _flag :: origin :: text :: _ => do
+    let origin ← if origin == "-" then some none else (parseName origin).map some
+    let text ← parseHex text
+    if text.any (· ≥ 128) then pure "non-ascii"
+    else pure (showResult (parse text origin))
+  | _ => none
+
+def step (s : State) (toks : List String) : State × String :=
+  (s, (handle toks).getD "bad-op")
 
 end HickoryVerif.Drv.C20
